@@ -87,21 +87,29 @@ def rest(ctx):
     ap = F.fn(r"ScannerBuilder::add_patterns$")
     ctx.analysed_fn(ap)
     ex, paths = run_fn(ap, F, BaseModel())
-    for p in ret_paths(paths):
-        mp = [e for e in p.events if e[0] == "call" and re.search(r"Iterator>::map::", e[2])]
-        ok = len(mp) == 1 and mp[0][3][0][0] == "app" and re.search(r"Iterator>::enumerate$", mp[0][3][0][1]) is not None
-        inner = mp[0][3][0][2][0] if ok else None
-        ok2 = inner == ("sym", "patterns") or (inner is not None and inner[0] == "app" and re.search(r"IntoIterator>::into_iter$", inner[1]) is not None and inner[2][0] == ("sym", "patterns"))
-        ctx.ob("C01.f", "add_patterns:enumerates-the-given-patterns", bool(ok and ok2), "maps over %s" % (S.vstr(mp[0][3][0]) if mp else None), ap.loc())
-    cl = F.closures_of(ap)
-    ctx.floor("C01.f", "closures of add_patterns", len(cl), 1)
-    for c in cl:
-        ex, paths = run_fn(c, F, BaseModel())
-        for p in ret_paths(paths):
-            pn = p.calls(r"pattern::Pattern::new$")
-            ok = len(pn) == 1 and pn[0][3][1] == ("field", ("sym", "arg2"), "0") and ex.deref_val(p, pn[0][3][0]) == ("field", ("sym", "arg2"), "1") and p.end[1] == pn[0][4]
-            ctx.ob("C01.f", "add_patterns:token-type-is-the-enumerate-index", ok,
-                   "Pattern::new(%s) (second argument must be the unmodified index of the pair)" % (", ".join(S.vstr(a) for a in pn[0][3]) if pn else ""), c.loc())
+    # the i-th given pattern string becomes Pattern::new(string, i): the pairs come from enumerate() over the given
+    # collection (no reordering / filtering), every Pattern::new takes text and index from the same pair, whatever the
+    # loop is written as (map + collect, for + push)
+    en = [e for p in paths for e in p.calls(r"Iterator>::enumerate$")]
+    ok_en = bool(en) and all(S.mentions(e[3][0], lambda x: x == ("sym", "patterns")) for e in en)
+    bad = [M.short_name(M.call_name(t)) for f_ in [ap] + list(F.closures_of(ap)) for bb, t in f_.calls(r"Iterator>::(rev|skip|take|filter|filter_map|step_by|skip_while|take_while|chain|zip|cycle)\b|::(sort\w*|reverse|dedup\w*|retain|swap|swap_remove|insert|remove|truncate|pop)$")]
+    ctx.ob("C01.f", "add_patterns:enumerates-the-given-patterns", ok_en and not bad, "enumerate over %s; reordering/filtering calls %s" % ([S.vstr(e[3][0])[:40] for e in en][:2], bad), ap.loc())
+    n_new = 0
+    for body in [ap] + list(F.closures_of(ap)):
+        if body is ap:
+            ex_b, ps_b = ex, paths
+        else:
+            ex_b, ps_b = run_fn(body, F, BaseModel())
+        for p in ps_b:
+            for pn in p.calls(r"pattern::Pattern::new$"):
+                n_new += 1
+                idx = S.fstr(pn[3][1])
+                txt = S.fstr(ex_b.deref_val(p, pn[3][0]) if pn[3][0][0] == "ref" else pn[3][0])
+                m = re.match(r"^\(?(item@bb\d+|arg2)\)?\.0$", idx)
+                ok = m is not None and (m.group(1) + ".1") in txt.replace("(", "").replace(")", "")
+                ctx.ob("C01.f", "add_patterns:token-type-is-the-enumerate-index", ok,
+                       "Pattern::new(%s, %s) (second argument must be the unmodified index of the pair the text comes from)" % (txt[:50], idx), body.loc())
+    ctx.floor("C01.f", "Pattern::new calls in add_patterns", n_new, 1)
     pn = F.fn(r"pattern::Pattern::new$")
     ex, paths = run_fn(pn, F, BaseModel())
     for p in ret_paths(paths):
